@@ -303,9 +303,11 @@ def check(ctx):
             and user[2] == (n("outcomes"),) and not user[3])
 
         def leaves(t):
-            if t[0] == "phi" and t[1][:1] == ("case?",):
+            # a `match` statement or the isinstance chain it stands for; an arm that
+            # raises (undef) is not a grid
+            if t[0] == "phi" and (t[1][:1] == ("case?",) or is_call(t[1], "isinstance")):
                 return leaves(t[2]) + leaves(t[3])
-            return [t]
+            return [] if t[0] == "undef" else [t]
         arms_seen = leaves(dflt)
         bern = [a for a in arms_seen if a[0] == "call" and (fn_name(a[1]) or "") in (
             "jax.numpy.array", "jax.numpy.asarray") and a[2] == (("list", (c(0), c(1))),)
